@@ -66,3 +66,28 @@ func unpackExits(c *Ctx, r *Report, rule, consequence string) {
 }
 
 var _ = fmt.Sprintf
+
+// repackSkip: functions of the pack scope whose sites are not decided (reason in DESIGN.md, Appendix D).
+var repackSkip = map[string]bool{
+	"packDomainName":       true, // indexes a compacted copy of the name while compacting it (bs, ls, compOff): the invariants relating i, ls and len(bs) across the in-place copy are not derived
+	"isRootLabel":          true, // called with positions of packDomainName's compacted copy
+	"compressionLenSearch": true, // walks the presentation string by label positions handed in by domainNameLen
+	"domainNameLen":        true, // slices by the offset compressionLenSearch returns
+}
+
+// repackExempt: single constructs of the pack scope that are not decided, one line of reason each.
+var repackExempt = map[string]string{
+	"EDNS0_REPORTING.pack:slice-high PackDomainName()#0+0 <= len(t0[:255])":                                                  "needs 'PackDomainName returns an offset within the buffer it was given', a postcondition of the name packer, which is not decided",
+	"EDNS0_SUBNET.pack:slice-high (((*e.f2+8)-1)/8)+0 <= len((net.IP).Mask())":                                               "needs len((net.IP).Mask(m)) == len(ip) for a mask of matching length and (prefix+7)/8 <= that length; net.IP.Mask is outside the module",
+	"EDNS0_SUBNET.pack:slice-high (((*e.f2+8)-1)/8)+0 <= len((net.IP).Mask())#2":                                             "needs len((net.IP).Mask(m)) == len(ip) for a mask of matching length and (prefix+7)/8 <= that length; net.IP.Mask is outside the module",
+	"Msg.packBufferWithCompressionMap:slice-high off+0 <= len(msg)":                                                          "msg[:off] after four loops of packRR calls: needs the packers' 'returned offset <= len(msg)' through the loops' phis",
+	"SVCBMandatory.pack:bigendian (2*(rangeindex+1))+2 <= len(t11)":                                                          "the key list is captured by the sort closure, so its loads are separate heap cells; needs 2*i+2 <= 2*len(codes)",
+	"SVCBMandatory.pack$1:index i+1 <= len(*codes)":                                                                          "indices handed to a sort.Slice less function are within the slice that was sorted (contract of package sort)",
+	"SVCBMandatory.pack$1:index j+1 <= len(*codes)":                                                                          "indices handed to a sort.Slice less function are within the slice that was sorted (contract of package sort)",
+	"packDataAplPrefix:slice-high (((net.IPMask).Size()#0+7)/8)+0 <= len((net.IP).Mask())":                                   "length of a net.IPMask / net.IP.Mask result; trailing-zero trimming loop counts down over it",
+	"packDataAplPrefix:index-low 0 <= i+1 in (net.IP).Mask()[:(((net.IPMask).Size()#0+7)/8)]":                                "length of a net.IPMask / net.IP.Mask result; trailing-zero trimming loop counts down over it",
+	"packDataNsec:index-low 0 <= ((off+1)+(((*bitmap[(rangeindex+1)]-((*bitmap[(rangeindex+1)]/256)*256))/8)+1))+0 in msg":   "0 <= off + 1 + bit/8 + 1: lower bound of a sum of non-negative terms behind a modulo written as x - (x/256)*256",
+	"packDataNsec:index-low 0 <= ((off+1)+(((*bitmap[(rangeindex+1)]-((*bitmap[(rangeindex+1)]/256)*256))/8)+1))+0 in msg#2": "0 <= off + 1 + bit/8 + 1: lower bound of a sum of non-negative terms behind a modulo written as x - (x/256)*256",
+	"packDataSVCB$1:index i+1 <= len(*pairs)":                                                                                "indices handed to a sort.Slice less function are within the slice that was sorted (contract of package sort)",
+	"packDataSVCB$1:index j+1 <= len(*pairs)":                                                                                "indices handed to a sort.Slice less function are within the slice that was sorted (contract of package sort)",
+}
